@@ -715,6 +715,16 @@ def m_strings_has_prefix(ex, args, guard, pos):
     return _match_at(ex, s, 0, p), guard
 
 
+def m_strings_compare(ex, args, guard, pos):
+    """strings.Compare / internal/bytealg.CompareString: -1, 0, +1 lexicographically"""
+    a, b = args
+    lt = ex.str_lt(a, b)
+    eq = ex.str_eq(a, b)
+    if isinstance(lt, bool) and isinstance(eq, bool):
+        return (-1 if lt else (0 if eq else 1)), guard
+    return i_ite(lt, wrap(-1, 64, True), i_ite(eq, 0, 1, 64), 64), guard
+
+
 def m_strings_has_suffix(ex, args, guard, pos):
     s, p = args
     if not isinstance(p.len, int):
@@ -1177,6 +1187,8 @@ def install(ex):
     M["strings.LastIndexByte"] = m_strings_last_index_byte
     M["strings.Contains"] = m_strings_contains
     M["strings.HasPrefix"] = m_strings_has_prefix
+    M["strings.Compare"] = m_strings_compare
+    M["internal/bytealg.CompareString"] = m_strings_compare
     M["strings.HasSuffix"] = m_strings_has_suffix
     M["strings.Cut"] = m_strings_cut
     M["strings.TrimSpace"] = m_strings_trimspace
